@@ -152,4 +152,52 @@ theorem orderState_applyUpdate_other (e : Eng) (u : Update) (j c : Nat)
     · subst hj; cases e.instruments[j]? <;> simp
     · simp [hj]
 
+theorem generateStage_commanded (e : Eng) (cmd : Option ActionOut) (algoC : List CancelReq)
+    (algoO : List OpenReq) (refuse : Key → Bool) :
+    (generateStage e cmd algoC algoO refuse).2.commanded = cmd := by
+  unfold generateStage; split <;> rfl
+
+theorem strip_recordCancels_eq (e : Eng) (qs : List CancelReq) (i c : Nat) :
+    strip (orderState (recordCancels e qs) i c) = strip (orderState e i c) := by
+  induction qs generalizing e with
+  | nil => rfl
+  | cons q qs ih =>
+    simp only [recordCancels, List.foldl_cons] at *
+    rw [ih, orderState_recordCancel]
+    split
+    · cases ho : orderState e i c with
+      | none => rfl
+      | some a => simpa [Lifecycle.step] using strip_cancel_mark (some a)
+    · rfl
+
+theorem strip_recordOpens_none (e : Eng) (os : List OpenReq) (i c : Nat)
+    (h : strip (orderState e i c) = none) : strip (orderState (recordOpens e os) i c) = none := by
+  induction os generalizing e with
+  | nil => exact h
+  | cons o os ih =>
+    simp only [recordOpens, List.foldl_cons]
+    apply ih
+    rw [orderState_recordOpen]
+    split
+    · rfl
+    · exact h
+
+/-- the in-flight marks of a command never turn a strip-`none` order into a confirmed one -/
+theorem strip_action_none (e : Eng) (c : Command) (i cid : Nat)
+    (h : strip (orderState e i cid) = none) : strip (orderState (action e c).1 i cid) = none := by
+  have hs : ∀ {α : Type} (toReq : α → Req) (rs : List α),
+      orderState (sendRequests e toReq rs).1 i cid = orderState e i cid := by
+    intro α toReq rs; rfl
+  cases c with
+  | sendCancelRequests rs =>
+    simp only [action]; rw [strip_recordCancels_eq]; simpa [hs] using h
+  | sendOpenRequests rs =>
+    simp only [action]; apply strip_recordOpens_none; simpa [hs] using h
+  | closePositions f =>
+    simp only [action]; apply strip_recordOpens_none
+    rw [strip_recordCancels_eq]
+    simpa [orderState, sendRequests] using h
+  | cancelOrders f =>
+    simp only [action]; rw [strip_recordCancels_eq]; simpa [hs] using h
+
 end BarterModel.Audit
